@@ -489,11 +489,18 @@ class PteraTransformer(NodeTransformer):
                 orig=target,
             )
 
-        elif isinstance(target, ast.Tuple):
+        elif isinstance(target, (ast.Tuple, ast.List)):
             stmts = []
             for entry in target.elts:
                 stmts.extend(self.generate_interactions(entry))
             return stmts
+
+        elif isinstance(target, ast.Starred):
+            return self.generate_interactions(target.value)
+
+        elif isinstance(target, (ast.Attribute, ast.Subscript)):
+            # A store into an object (for obj.x in ...), not a variable
+            return []
 
         else:  # pragma: no cover
             raise NotImplementedError(target)
